@@ -749,6 +749,17 @@ theorem custom_fill_source_eq_model_partial (w : Nat → Nat → Int) (T : GenSr
         a'.scoring = a.scoring :=
   GenSrcPwColumn.column_loop w T x m n j q xc pc _ _ oc olx hx hj hjn k i a cur hinv hlen hik rfl rfl
 
+/-- **The reset loop of a column (translated text)**: `for i in 1..=m { self.S[curr][i] = MIN_SCORE; }` over `i .. i + k` overwrites
+exactly the entries `S[curr][i .. i + k)` with `MIN_SCORE` and touches nothing else (one more piece of
+`custom_fill_source_eq_model`; establishes the clause `hReset` of `ColInv` for the next column). -/
+theorem column_reset_loop_source_eq_model (w : Nat → Nat → Int) (iT dT snT sn0T : Int → Int → Bool) (c : Nat) (hc : c < 2)
+    (k i : Nat) (a : RbV.Gen.SrcPwTypes.Aligner) (l : List Int) (hS : a.S.length = 2) (hl : a.S.getD c [] = l)
+    (hik : i + k ≤ l.length) :
+    ∃ l', List.foldlM (RbV.Gen.SrcPwCustom.custom_for4 w iT dT snT sn0T c) a (List.range' i k) = .ok { a with S := a.S.set c l' } ∧
+      l'.length = l.length ∧ (∀ t, i ≤ t → t < i + k → l'.getD t 0 = minScore) ∧
+      (∀ t, (t < i ∨ i + k ≤ t) → l'.getD t 0 = l.getD t 0) :=
+  GenSrcPwColumn.reset_loop w iT dT snT sn0T c hc k i a l hS hl hik
+
 end SourceText
 
 
